@@ -21,7 +21,7 @@ META = {
                    'included); (b) tap quantisation - the real-arithmetic transform with taps rounded to float32 exactly as torch.tensor(..., dtype=float32) does, minus the float64 '
                    'one, must stay within 64*eps32*gain for every input in [-1,1]^n (z3, linear residual); (c) strided inputs - runs on sliced / transposed / stepped symbolic views '
                    'must equal runs on their contiguous copies. NOT decided: floating-point rounding of the arithmetic inside ATen/oneDNN kernels.',
-    'bounds': {'quick': {'transforms': KINDS, 'configs per transform': 2, 'precision combinations': 8, 'views': ['x[..., ::2]', 'transposed', 'channel slice of a wider tensor', 'batch-reversed']},
+    'bounds': {'quick': {'transforms': KINDS, 'configs per transform': 2, 'precision combinations': 8, 'views': ['x[..., ::2]', 'transposed', 'channel slice of a wider tensor', 'batch-offset slice', 'channels_last / NHWC-permuted storage']},
                'thorough': {'configs per transform': 5}},
     'outside': 'rounding/accumulation order inside kernels (a cancellation-prone reformulation is invisible here); half/bfloat16 kernels; CUDA',
     'assumptions': ['real-arithmetic semantics with exact float32 quantisation of constants', 'NumPy strides stand in for torch strides (.view raises on the same layouts)'],
@@ -49,7 +49,7 @@ def configs(tier, seed):
                 out.append(dict(b, check='dtype', how=how, xdtype=xd, B=1, C=2))
         if not b.get('none'):
             out.append(dict(b, check='quant', B=1, C=1))
-            for view in ('step2', 'transposed', 'chanslice', 'flipbatch'):
+            for view in ('step2', 'transposed', 'chanslice', 'flipbatch', 'chlast'):
                 out.append(dict(b, check='view', view=view, B=2, C=2))
     out.append(dict(kind='scat1', check='quant_scat', biort='near_sym_a', magbias=0.01, H=4, W=4))
     out.append(dict(kind='scat1', check='quant_scat', biort='near_sym_b', magbias=0.01, H=4, W=4))
@@ -364,6 +364,13 @@ def _views(tt, view, t):
     if view == 'chanslice':
         z = tt.cat([t, t * 0, t], dim=1)
         return z[:, :t.shape[1]] if t.shape[1] > 0 else t
+    if view == 'chlast':
+        # channels_last / NHWC-permuted storage viewed as NCHW (for 3-d inputs: (batch, time, features).transpose(1, 2))
+        if t.dim() == 4:
+            return t.permute(0, 2, 3, 1).contiguous().permute(0, 3, 1, 2)
+        if t.dim() == 3:
+            return t.transpose(1, 2).contiguous().transpose(1, 2)
+        return t
     if view == 'flipbatch':
         return tt.cat([t[:1] * 0, t], dim=0)[1:]        # batch-offset slice of a larger tensor
     raise KeyError(view)
